@@ -120,19 +120,19 @@ RECURSIVE SinH(_, _)
 SinH(y, i) == IF i > NT THEN One ELSE Sub(One, DivSmall(Mul(y, SinH(y, i + 1)), (2 * i) * (2 * i + 1)))
 RECURSIVE CosH(_, _)
 CosH(y, i) == IF i > NT THEN One ELSE Sub(One, DivSmall(Mul(y, CosH(y, i + 1)), (2 * i - 1) * (2 * i)))
-SinCosRad(x) == LET y == Mul(x, x) IN <<Mul(x, SinH(y, 1)), CosH(y, 1)>>
+\* TLC re-evaluates LET definitions and operator arguments at every use in state context; the set
+\* comprehensions below bind y, x to VALUES, so that every product is computed once
+SCX(x) == CHOOSE r \in {<<Mul(x, SinH(y, 1)), CosH(y, 1)>> : y \in {Mul(x, x)}} : TRUE
+SinCosRad(x0) == CHOOSE r \in {SCX(x) : x \in {x0}} : TRUE
+Turn(sc, m) == IF m = 0 THEN <<sc[1], sc[2]>>
+               ELSE IF m = 1 THEN <<sc[2], Neg(sc[1])>>
+               ELSE IF m = 2 THEN <<Neg(sc[1]), Neg(sc[2])>>
+               ELSE <<Neg(sc[2]), sc[1]>>
+\* b = angle + 720 degrees (a value): quadrant q, remainder in [0, 90)
+SCB(b) == LET q == IntPart(b) \div 90
+          IN CHOOSE r \in {Turn(sc, q % 4) : sc \in {SinCosRad(DivSmall(Mul(Sub(b, FromInt(90 * q)), Pi), 180))}} : TRUE
 \* angle in degrees, -720 <= a < 1080: <<sin, cos>>
-SinCosDeg(a) ==
-  LET b  == Add(a, FromInt(720))
-      ip == IntPart(b)
-      k  == ip \div 90
-      f  == Sub(b, FromInt(90 * k))                         \* in [0, 90)
-      sc == SinCosRad(DivSmall(Mul(f, Pi), 180))
-      m  == k % 4
-  IN IF m = 0 THEN <<sc[1], sc[2]>>
-     ELSE IF m = 1 THEN <<sc[2], Neg(sc[1])>>
-     ELSE IF m = 2 THEN <<Neg(sc[1]), Neg(sc[2])>>
-     ELSE <<Neg(sc[2]), sc[1]>>
+SinCosDeg(a) == CHOOSE r \in {SCB(b) : b \in {Add(a, FromInt(720))}} : TRUE
 AngleOK(a) == Geq(a, FromInt(-720)) /\ Lt(a, FromInt(1080))
 
 (* ============================ 4. the laws ============================== *)
@@ -148,8 +148,8 @@ Rel(x, e) == Add(Mul(Abs(x), e), Tiny)
 \* a direction observed as an angle (degrees) agrees with the rational direction d within tol (radians,
 \* compared per component of the unit vector: generous side)
 AngleIsDir(a, d, tol) ==
-  LET sc == SinCosDeg(a)
-  IN /\ Within(MulSmall(sc[1], d[3]), FromInt(d[1]), MulSmall(tol, d[3]))
+  \E sc \in {SinCosDeg(a)} :
+     /\ Within(MulSmall(sc[1], d[3]), FromInt(d[1]), MulSmall(tol, d[3]))
      /\ Within(MulSmall(sc[2], d[3]), FromInt(d[2]), MulSmall(tol, d[3]))
 
 InCircle(b) == Geq(b, Zero) /\ Lt(b, FromInt(360))                 \* bearing in [0, 360)
@@ -165,17 +165,20 @@ InQuad(b, k) == \/ (Geq(b, Sub(FromInt(90 * k), QSlack)) /\ Leq(b, Add(FromInt(9
 \*  circle:  0 <= b < 360
 \*  quadrant: the quadrant of b follows the signs of dx, dy
 \*  bearing: d sin b = dx, d cos b = dy within 1e-9 d  (clockwise from north)
-JoinDistOK(dx, dy, d) == LET s2 == Add(Sq(dx), Sq(dy))
-                         IN Geq(d, Zero) /\ Within(Sq(d), s2, Add(Mul(s2, Dec(2100, 3)), Tiny))
+JoinDistOK(dx, dy, d) == \E s2 \in {Add(Sq(dx), Sq(dy))} :
+                            Geq(d, Zero) /\ Within(Sq(d), s2, Add(Mul(s2, Dec(2100, 3)), Tiny))
 SgnQuad(dx, dy) == Quad(Sign(dx), Sign(dy))
 JoinBearingOK(dx, dy, d, sc) == /\ Within(Mul(d, sc[1]), dx, Rel(d, E9))
                                 /\ Within(Mul(d, sc[2]), dy, Rel(d, E9))
 
 \* radiations: observed point o for from-point p, distance d, scale k, total angle a (degrees):
 \* o = p + d k (sin a, cos a) within 1e-9 d k per coordinate
-RadiateOK(p, o, d, k, sc) == LET len == Mul(d, k)
-                             IN /\ Within(Sub(o[1], p[1]), Mul(len, sc[1]), Rel(len, E9))
-                                /\ Within(Sub(o[2], p[2]), Mul(len, sc[2]), Rel(len, E9))
+\* plus one unit in the last place of the resulting coordinate (a double cannot hold it more precisely:
+\* 2.3e-16 (|p| + length)); the closure law below keeps the literal tolerance of the property
+Ulp(x) == Mul(Abs(x), Dec(23000, 5))
+RadiateOK(p, o, d, k, sc) == \E len \in {Mul(d, k)} :
+                                /\ Within(Sub(o[1], p[1]), Mul(len, sc[1]), Add(Rel(len, E9), Ulp(Add(Abs(p[1]), len))))
+                                /\ Within(Sub(o[2], p[2]), Mul(len, sc[2]), Add(Rel(len, E9), Ulp(Add(Abs(p[2]), len))))
 \* closure: radiated point reproduces the second point within 1e-9 of the distance
 ClosureOK(o, p2, d) == Within(o[1], p2[1], Rel(d, E9)) /\ Within(o[2], p2[2], Rel(d, E9))
 
